@@ -477,8 +477,10 @@ __CPROVER_ensures(!g_cu_valid ==> g_ht_calls == 0 && g_ra_calls == OLD(g_ra_call
 ;
 
 /* ================================================================ s_run_all: decision logic over ABSTRACT containers
- * (unit run_all_logic, units/C07/run_all_logic.c; unbounded).  The list operations that move tasks (swap_contents,
- * pop_front, push_back) and the heap's top/pop are executable CLIENT MODELS there (plain doubly-linked-list / heap
+ * (unit run_all_logic, units/C07/run_all_logic.c; unbounded - DISABLED in units.json: the instance exceeds the solver
+ * budget, see "disabled_units" there; kept because contract, models and loop invariants are complete and no obligation is
+ * known to fail).  The list operations that move tasks (swap_contents, pop_front, push_back) and the heap's top/pop are
+ * executable CLIENT MODELS there (plain doubly-linked-list / heap
  * semantics, assumed: properties C09 / C06; the REAL list functions are used by every other unit and by the native
  * whole-scheduler units; init / empty / begin are the real ones in this unit too):
  *     g_asap_len, g_tl_len, g_run_len   lengths of the run-now FIFO, the overflow list, the private batch
@@ -505,10 +507,6 @@ __CPROVER_ensures(!g_cu_valid ==> g_ht_calls == 0 && g_ra_calls == OLD(g_ra_call
 #define g_moved_timed g_ab.moved_timed
 uint64_t g_now;
 
-#define TS_L_ASAP(l) ((l) == &g_sc.asap_list)
-#define TS_L_TL(l) ((l) == &g_sc.timed_list)
-#define TS_L_RUN(l) (!TS_L_ASAP(l) && !TS_L_TL(l))
-#define TS_L_LEN(l) (TS_L_ASAP(l) ? g_asap_len : (TS_L_TL(l) ? g_tl_len : g_run_len))
 #define TS_TNODE_INDEX(n) (TS_POFF(n) / sizeof(struct aws_task))
 /* abstract state well-formed */
 #define TS_ABS_OK                                                                                                      \
@@ -522,11 +520,6 @@ uint64_t g_now;
 #define TS_ABS_ORDER                                                                                                   \
     (g_moved_any ==> (g_tl_len > 0 ==> g_last_moved_ts <= g_tk[g_tl_front_i].timestamp) &&                             \
                       (g_q_size > 0 ==> g_last_moved_ts <= g_tk[g_q_top_i].timestamp))
-/* list node + heap handle of every arena task (adjacent members: one byte range per task) */
-#define TS_A_LINKS(t) __CPROVER_object_upto((uint8_t *)&(t)->node, sizeof(struct aws_linked_list_node) + sizeof(struct aws_priority_queue_node))
-#define TS_A_ARENA_LINKS TS_A_LINKS(&g_tk[0]), TS_A_LINKS(&g_tk[1]), TS_A_LINKS(&g_tk[2]), TS_A_LINKS(&g_tk[3])
-#define TS_A_ARENA_BUT_FN TS_A_TASK_BUT_FN(&g_tk[0]), TS_A_TASK_BUT_FN(&g_tk[1]), TS_A_TASK_BUT_FN(&g_tk[2]), TS_A_TASK_BUT_FN(&g_tk[3])
-#define TS_ALL_FN_OK (TS_FN_OK(&g_tk[0]) && TS_FN_OK(&g_tk[1]) && TS_FN_OK(&g_tk[2]) && TS_FN_OK(&g_tk[3]))
 
 /* Representation of the abstract lists in the REAL sentinels (so that the real aws_linked_list_init / _empty / _begin run
  * unchanged): head.next is the front task's node, or the tail sentinel when the list is empty. */
